@@ -69,8 +69,10 @@ CHECKS = {
     ),
     'C02': dict(
         gens=['Raft'],
-        props='ZanVerif.Props.C02',
-        protos=[dict(name='raft', mode='cert', quick_seeds=2, thorough_seeds=6, classes='(applied-mismatch|commit-mismatch|panic)')],
+        props=['ZanVerif.Props.C02', 'ZanVerif.Props.C02Log'],
+        protos=[dict(name='raft', mode='cert', quick_seeds=2, thorough_seeds=6, classes='(applied-mismatch|commit-mismatch|panic)'),
+                dict(name='raftlog', quick_seeds=6, thorough_seeds=25),
+                dict(name='rocksvote', mode='oracle', quick_seeds=3, thorough_seeds=6, classes='vote-(granted-to-stale-candidate|differs-by-storage)')],
         rule=RAFT_RULE,
         trusted=RAFT_TRUST,
         partial=RAFT_PARTIAL,
@@ -455,3 +457,45 @@ CHECKS['C09'].update(
 CHECKS['C12']['partial'] = [x for x in CHECKS['C12']['partial'] if 'C12_float_order' not in x] + [
     "float scores: order preservation, injectivity modulo +-0 and decoder round trip are now theorems (Props/C12Float.lean, on IEEE bit patterns; NaN excluded, witness of the NaN collision included); Go's float comparison is taken to be the order on those bit patterns for non-NaN values"]
 CHECKS['C12']['trusted'] = [x for x in CHECKS['C12']['trusted'] if 'float scores' not in x] + ["float64 <-> bit pattern conversion (math.Float64bits) and Go's < on non-NaN floats = the order of the modelled bit patterns"]
+
+# ---- the log layer of raft (work package wI), merged into C02
+_C02LOG = dict(
+        gens=['Raft'],
+        props='ZanVerif.Props.C02Log',
+        protos=[dict(name='raftlog', quick_seeds=20, thorough_seeds=25)],
+        rule=("300 (quick) / 900 (thorough) sessions x 60-80 calls per seed on a REAL unexported raftLog + unstable over a real MemoryStorage, "
+              "method by method through the overlay exports (append, maybeAppend with matching / conflicting / stale prev, findConflict, commitTo, "
+              "maybeCommit, appliedTo, stableTo, stableSnapTo, restore, slice, entries, nextEnts with MaxCommittedSizePerReady pagination, term, matchTerm, "
+              "isUpToDate, newLog restart; storage Append / Compact / CreateSnapshot / ApplySnapshot / Entries / Term), five session kinds: raft-legal life, "
+              "mostly legal, arbitrary (illegal) calls, Ready/Advance cycles of a REAL raft.Node (RestartNode, StepNode, Advance) over the same log, and a REAL "
+              "RocksStorage on the mem engine (Append incl. suffix overwrite, CreateSnapshot, Compact, ApplySnapshot ahead of / inside the log, FirstIndex, LastIndex, Term, Entries; raw caches + DB content compared); "
+              "arguments are relative to the current state and resolved by each side against its own state; every answer carries the result "
+              "(value | err:compacted|unavailable|snapoutofdate | panic:<class>, state rolled back after a panic) and a FULL state dump (committed, applied, offset, "
+              "unstable snapshot + entries, storage snapshot meta + all entries incl. the dummy, first/last index, term(i) for every index, wf flag, node bookkeeping); "
+              "every call is compared whatever its outcome (value, error, panic); the outcome distribution (panic classes, error kinds, accepted / rejected / truncating maybeAppend, clean node cycles, paginated Readys, Readys with snapshot + entries) is in coverage.correspondence.notes; distinct = distinct op lines"),
+        trusted=["the Go-side accessors in harness/overlay/raft/verif_export.go (add-only wrappers of the unexported methods; Save/Load roll a panicked call back)",
+                 "uint64 arithmetic is modelled on Nat with the four wrap-around sites made explicit (see the header of lean/ZanVerif/Raft/LogModel.lean); indexes < 2^64",
+                 "Entry.Size() is modelled for entries with Type = DataType = Timestamp = 0 (what the harness builds)"],
+        partial=["RocksStorage: only the index bookkeeping is modelled (DB as a sorted list, snapshot meta, the two caches); the 1000-entry intermediate commits of writeEnts, DeleteFilesInRange, engine errors and the rocksdb/pebble engines are not (mem engine only)",
+                 "raftLog is tied on MemoryStorage only; raftLog over RocksStorage (whose FirstIndex follows the snapshot index and whose ApplySnapshot keeps a stale tail, F16) is not run",
+                 "the node driver model covers a node with empty queues (no message, tick, proposal, conf change): Term / Vote / SoftState constant",
+                 "the link from the executable raft core (raft.go Step) to the abstract actions is not part of this check; `C02_op_refines` / `C02_recvApp_image` are its log-layer half"],
+        assumptions=['calls within the stated contracts (`Legal`) for the preservation / refinement theorems; the spec theorems of single functions state their own hypotheses'],
+        level_text=("Theorems about the EXECUTABLE model of raftLog + unstable + MemoryStorage (mirrors raft/log.go, log_unstable.go, storage.go function by function; every Go panic and error an explicit outcome), "
+                    "for ALL logs and arguments: the well-formedness invariant WfLog (decided by the executable wfB, printed by the driver and recomputed by the Go harness on the real state) is preserved by every "
+                    "non-panicking operation called within its contract and holds in every reachable state; term / matchTerm / findConflict / maybeAppend / append / truncateAndAppend / commitTo / maybeCommit / appliedTo / "
+                    "restore / stableTo / stableSnapTo / slice / nextEnts / isUpToDate and the four MemoryStorage mutators compute on `fullLog` exactly what is stated, panics fire exactly under the stated conditions; "
+                    "findConflict IS the abstract matchLen and an accepted maybeAppend IS Z.LogMatch.maybeAppend on the represented whole log with the commit update of RaftAbs.recvApp (C02_maybeAppend_refines, C02_recvApp_image); "
+                    "every operation refines a step on the represented whole log (C02_op_refines) and every reachable log represents one (C02_reachable_represents); nextEnts hands out exactly max(applied+1, firstIndex).. in order without gaps, "
+                    "nothing above committed (C02_nextEnts_contiguous); isUpToDate and maybeCommit's guard equal the REGENERATED expressions; the node driver model (newReady / StepNode / Advance bookkeeping) is tied differentially on a real raft.Node "
+                    "and refines the four-field abstraction of Raft/Handout.lean (C02_node_cycle, C02_node_inv_between_cycles); RocksStorage's cached first / last index are the true ones after every operation (C02_rocks_cached_index_inv). Model tied to the real code by >= 20 seeds x 18k differential calls with full state comparison per call."),
+        level_note="raftLog on MemoryStorage; RocksStorage index bookkeeping separately (known finding F16: ApplySnapshot keeps entries above the snapshot index); raft core above the log layer is covered by C01-C03's certificate runs, not here",
+        technique='Lean 4 proofs over an executable function-by-function model + differential run of the real unexported raftLog / MemoryStorage / raft.Node against it',
+    )
+CHECKS['C02'].update(
+    rule=CHECKS['C02']['rule'] + " || raftlog: " + _C02LOG['rule'],
+    trusted=CHECKS['C02']['trusted'] + _C02LOG['trusted'],
+    partial=CHECKS['C02']['partial'] + _C02LOG['partial'],
+    assumptions=CHECKS['C02']['assumptions'] + _C02LOG['assumptions'],
+    level_text=CHECKS['C02']['level_text'] + " LOG LAYER (Props/C02Log.lean): " + _C02LOG['level_text'],
+)
